@@ -35,16 +35,23 @@ type Contract struct {
 	Lets         []*Clause // Label = name
 	Loops        map[int]*LoopSpec
 	Ranges       map[int]*LoopSpec // sync.Map.Range call sites, by ordinal
+	Frames       map[string][]string
 	Modifies     []string
 	Inline       bool
-	Trusted      bool // contract assumed, body not verified (externals)
-	Thread       bool // body runs as its own goroutine
+	Trusted      bool        // contract assumed, body not verified (externals)
+	Thread       bool        // body runs as its own goroutine
+	Holds        [][3]string // tokens owned at entry (thread closures)
 	Flags        map[string]string
 	Like         string
 	Subst        [][2]string
 	Guards       []GuardRule          // type blocks: field/call-out guard discipline
 	LockInvs     map[string][]*Clause // type blocks: mutex field -> invariant clauses over "self"
 	Interference bool                 // type blocks: guarded fields are havocked at Lock (other threads may have changed them)
+	TokenMaps    []string
+	NoCallOut    []string
+	MapInserts   map[string][]*Clause
+	ChanPubs     map[string][]*Clause
+	Published    map[string][]string
 	Line         int
 	File         string
 }
@@ -76,6 +83,8 @@ func parseContracts(path string) ([]*Contract, []*SpecDef, error) {
 	defer f.Close()
 	var out []*Contract
 	var defs []*SpecDef
+	var framePending *Contract
+	framePendingName := ""
 	var cur *Contract
 	var last *Clause
 	sc := bufio.NewScanner(f)
@@ -98,6 +107,27 @@ func parseContracts(path string) ([]*Contract, []*SpecDef, error) {
 			body = strings.TrimSpace(body[:i])
 		}
 		word, rest := splitWord(body)
+		if word == "frame" {
+			// frame name := pattern pattern ...   (named list of heap/ghost patterns, used as @name in modifies)
+			i := strings.Index(rest, ":=")
+			if i < 0 {
+				return nil, nil, fmt.Errorf("%s:%d: malformed frame", path, ln)
+			}
+			fc := &Contract{Name: "frame " + strings.TrimSpace(rest[:i]), Loops: map[int]*LoopSpec{}, Ranges: map[int]*LoopSpec{}, Flags: map[string]string{}, Frames: map[string][]string{}}
+			fc.Frames[strings.TrimSpace(rest[:i])] = strings.Fields(rest[i+2:])
+			fc.Trusted = true
+			out = append(out, fc)
+			framePending = fc
+			framePendingName = strings.TrimSpace(rest[:i])
+			last = nil
+			cur = nil
+			continue
+		}
+		if framePending != nil && cur == nil && last == nil && word != "def" && word != "func" && word != "type" && word != "iface" && word != "callout" {
+			framePending.Frames[framePendingName] = append(framePending.Frames[framePendingName], strings.Fields(body)...)
+			continue
+		}
+		framePending = nil
 		if word == "def" {
 			// def name(p1, p2) := expr   (global specification macro)
 			i := strings.Index(rest, ":=")
@@ -172,6 +202,14 @@ func parseContracts(path string) ([]*Contract, []*SpecDef, error) {
 		case "thread":
 			cur.Thread = true
 			last = nil
+		case "holds":
+			// holds <key expr> <object expr> <Type.field>: the thread starts owning this build token
+			f := strings.Fields(rest)
+			if len(f) != 3 {
+				return nil, nil, fmt.Errorf("%s:%d: holds <keyexpr> <objexpr> <Type.field> (expressions without spaces)", path, ln)
+			}
+			cur.Holds = append(cur.Holds, [3]string{f[0], f[1], f[2]})
+			last = nil
 		case "guardedby", "calloutunder":
 			f := strings.Fields(rest)
 			if len(f) < 2 {
@@ -181,6 +219,43 @@ func parseContracts(path string) ([]*Contract, []*SpecDef, error) {
 			last = nil
 		case "interference":
 			cur.Interference = true
+			last = nil
+		case "nocallout":
+			cur.NoCallOut = append(cur.NoCallOut, strings.Fields(rest)...)
+			last = nil
+		case "tokenmap":
+			cur.TokenMaps = append(cur.TokenMaps, strings.Fields(rest)...)
+			last = nil
+		case "mapinsert":
+			// mapinsert <field> assume <expr over key, value>
+			f, r2 := splitWord(rest)
+			w, r3 := splitWord(r2)
+			if w != "assume" {
+				return nil, nil, fmt.Errorf("%s:%d: mapinsert <field> assume <expr>", path, ln)
+			}
+			last = mk(r3)
+			if cur.MapInserts == nil {
+				cur.MapInserts = map[string][]*Clause{}
+			}
+			cur.MapInserts[f] = append(cur.MapInserts[f], last)
+		case "chanpub":
+			// chanpub <chanfield> <expr over self>: close requires it, a completed receive may assume it
+			f, r2 := splitWord(rest)
+			last = mk(r2)
+			if cur.ChanPubs == nil {
+				cur.ChanPubs = map[string][]*Clause{}
+			}
+			cur.ChanPubs[f] = append(cur.ChanPubs[f], last)
+		case "published":
+			// published <chanfield> <fields...>: written only by the token holder before close, read after a receive
+			f := strings.Fields(rest)
+			if len(f) < 2 {
+				return nil, nil, fmt.Errorf("%s:%d: published <chanfield> <fields>", path, ln)
+			}
+			if cur.Published == nil {
+				cur.Published = map[string][]string{}
+			}
+			cur.Published[f[0]] = append(cur.Published[f[0]], f[1:]...)
 			last = nil
 		case "lockinv":
 			mf, r2 := splitWord(rest)
@@ -282,6 +357,12 @@ func parseContracts(path string) ([]*Contract, []*SpecDef, error) {
 			}
 			return o
 		}
+		for _, h := range src.Holds {
+			c.Holds = append(c.Holds, [3]string{sub(h[0]), sub(h[1]), sub(h[2])})
+		}
+		if src.Thread {
+			c.Thread = true
+		}
 		c.Requires = append(cp(src.Requires), c.Requires...)
 		c.Ensures = append(cp(src.Ensures), c.Ensures...)
 		c.Lets = append(cp(src.Lets), c.Lets...)
@@ -327,6 +408,12 @@ func parseContracts(path string) ([]*Contract, []*SpecDef, error) {
 			all = append(all, l.Invariants...)
 		}
 		for _, ls := range c.LockInvs {
+			all = append(all, ls...)
+		}
+		for _, ls := range c.MapInserts {
+			all = append(all, ls...)
+		}
+		for _, ls := range c.ChanPubs {
 			all = append(all, ls...)
 		}
 		for _, cl := range all {
